@@ -451,7 +451,7 @@ func main() {
 			"protocols {abridged, intermediate, padded, full} x wrapping {header, NoHeader, obfuscated2 without/with secret} (full has no obfuscation tag; listener: plain and obfuscated); " +
 			"payload sequences: all sequences of length<=2 over {4(error code),8,12,500,504,508,512} plus triples over {8,504,508} (thorough: triples over {4,8,504,508,512}), padded-intermediate padding 0..3 on every position; " +
 			"chunkings of the receiving side: whole, 1-byte reads, every single split point (streams <= 2 KiB), every pair of split points (sequences over {4,8,12} with streams <= 64 B, or <= 64 B after the 64-byte obfuscated2 header); " +
-			"large frames 65536 B (thorough: 1 MiB, 16 MiB-12, 16 MiB-4, 16 MiB, 16 MiB+4) with whole / fixed-size / edge splits; 4-byte frames with 9 code values. " +
+			"large frames 64 KiB and 256 KiB (thorough: 1 MiB, 16 MiB-16, -12, -8, -4, 16 MiB, 16 MiB+4) with whole / 4 KiB / 64 KiB / 1-byte / edge splits; 4-byte frames with 9 code values; reference sender with 4..15 padding bytes (informational). " +
 			"A split point p means one Read ends exactly at stream offset p, i.e. a short read of any size at any Read call (this subsumes <=2 short-read deviations). " +
 			"Oracle: received payloads == sent payloads in order, then no further frame; 4-byte frame => *codec.ProtocolErr{Code: -value}; td-produced streams parse to the same payloads under the reference decoder; " +
 			"listener: codec of the accepted connection == client's protocol. Payloads whose frame would exceed 16 MiB may be refused by either side (statement covers up to the frame limit). distinct = distinct witnesses.")
@@ -465,6 +465,7 @@ func main() {
 			pairs  int           // >0: every pair of split points if the stream is at most this long
 			list   []rt.Chunking // explicit chunkings
 			edges  bool          // splits near both ends of the stream
+			big    bool          // multi-MiB frames: run with low parallelism (each case touches ~100 MiB)
 		}
 		var jobs []job
 		mk := func(lens []int, pads []int) []Frame {
@@ -575,8 +576,14 @@ func main() {
 						if src == "ref" && s[len(s)-1] > rt.FrameLimit {
 							continue // the reference sender has no business producing frames above the limit
 						}
+						if big && src == "listener" && s[len(s)-1] != rt.FrameLimit-12 && s[len(s)-1] != rt.FrameLimit {
+							continue
+						}
 						j := job{base: W{Proto: proto, Wrap: wrap, Src: src, Frames: mk(s, []int{3, 1})},
-							list: []rt.Chunking{rt.Whole(), rt.Every(4096), rt.Every(65536)}}
+							list: []rt.Chunking{rt.Whole(), rt.Every(4096), rt.Every(65536)}, big: big}
+						if big {
+							j.list = []rt.Chunking{rt.Whole(), rt.Every(65536)}
+						}
 						if !big {
 							j.edges = true
 							j.list = append(j.list, rt.OneByte())
@@ -590,8 +597,15 @@ func main() {
 		}
 
 		c.Set("streams", len(jobs))
-		kit.Parallel(len(jobs), 16, func(i int) {
-			j := jobs[i]
+		var normalJobs, bigJobs []job
+		for _, j := range jobs {
+			if j.big {
+				bigJobs = append(bigJobs, j)
+			} else {
+				normalJobs = append(normalJobs, j)
+			}
+		}
+		runJob := func(j job) {
 			run := func(ch rt.Chunking) {
 				if c.Expired() {
 					return
@@ -629,7 +643,9 @@ func main() {
 					run(rt.CutAt(n - p))
 				}
 			}
-		})
+		}
+		kit.Parallel(len(normalJobs), 16, func(i int) { runJob(normalJobs[i]) })
+		kit.Parallel(len(bigJobs), 4, func(i int) { runJob(bigJobs[i]) })
 		if c.Expired() {
 			c.NotExhaustive("time budget hit before all chunkings of all %d streams were evaluated", len(jobs))
 		}
